@@ -232,6 +232,14 @@ def observe(sc):
         add("after earlier operations at other points: LocatedDifferential(e,p).component(x)",
             lambda: sm.LocatedDifferential(shared, P()).component(x), want)
         add("after earlier operations at other points: e.at(p)", lambda: shared.at(P()), oracle_outcome(tree, point))
+        if sc.get("early") and not sc.get("_wrapped"):
+            # the same expression as a non-root node (a non-trivial incoming multiplier in the
+            # reverse passes)
+            wrapped = ["Multiply", ["Constant", 3], tree]
+            sub = observe(dict(sc, tree=wrapped, _wrapped=True))
+            for o in sub:
+                o["observable"] = "[inside 3 * e] " + o["observable"]
+            obs.extend(sub)
         if sc.get("early"):
             add("Partial(e,x,early).at(p)", lambda: sm.Partial(mk(), x, compute_early=True).at(P()), want)
             add("Differential(e,early).component_at(x,p)", lambda: sm.Differential(mk(), compute_early=True).component_at(x, P()), want)
@@ -335,6 +343,17 @@ def main(path):
         return 0
     obs = observe(sc)
     bad = [o for o in obs if not o["ok"]]
+    if not bad and sc.get("kind") in ("evaluate", "numeric_routes", "reducer", "method_refines") and sc.get("point"):
+        # the counter-model itself did not misbehave: try inputs near it (same tree, the
+        # coordinates shifted; the oracle is recomputed for every input)
+        for shift in (0.37, -1.21, 2.5, -0.5, 1.0):
+            sc2 = dict(sc, point={k: num(v) + shift for k, v in sc["point"].items()})
+            obs2 = observe(sc2)
+            if any(not o["ok"] for o in obs2):
+                for o in obs2:
+                    o["observable"] = f"[coordinates shifted by {shift}] " + o["observable"]
+                obs, bad = obs2, [o for o in obs2 if not o["ok"]]
+                break
     for o in obs:
         print(("  FAIL " if not o["ok"] else "  ok   ") + json.dumps(o))
     if bad:
